@@ -1160,6 +1160,21 @@ type runner struct {
 	nextID uint64
 	tier   string
 	hung   bool
+	sigN   map[string]int
+}
+
+// failCapped keeps the report small: the driver only needs one instance per signature (and the
+// report holds at most 200 failures), so repeated instances of one signature are capped.
+func (rn *runner) failCapped(sig, what string, c any) {
+	if rn.sigN == nil {
+		rn.sigN = map[string]int{}
+	}
+	rn.sigN[sig]++
+	if rn.sigN[sig] <= 6 {
+		rn.rep.Fail(sig, what, c)
+	} else {
+		rn.rep.Count("failure-not-listed:" + sig)
+	}
 }
 
 func (s *scenario) pathFrom(anc, tip common.Hash) []*blockInfo {
@@ -1467,8 +1482,14 @@ func (rn *runner) runScenario1(s *scenario) {
 			return "reorg-not-exact/" + component
 		}
 		report := func(component, what string) {
+			first := !failed
 			failed = true
-			rn.rep.Fail(sig(component), fmt.Sprintf("%s [scenario %d %s/%s switch %d: %s -> %s, %d rolled back, %d re-appended]", what, s.ID, s.Kind, s.Backend, si, cj.From, cj.To, len(olds), len(news)), cj)
+			msg := fmt.Sprintf("%s [scenario %d %s/%s switch %d: %s -> %s, %d rolled back, %d re-appended]", what, s.ID, s.Kind, s.Backend, si, cj.From, cj.To, len(olds), len(news))
+			if first { // every failing switch is listed once (the driver matches model mismatches against listed cases)
+				rn.rep.Fail(sig(component), msg, cj)
+				return
+			}
+			rn.failCapped(sig(component), fmt.Sprintf("%s [scenario %d %s/%s switch %d: %s -> %s, %d rolled back, %d re-appended]", what, s.ID, s.Kind, s.Backend, si, cj.From, cj.To, len(olds), len(news)), cj)
 		}
 		if err != nil {
 			report("error", "SetCurrentHeader returned an error: "+err.Error())
@@ -1806,7 +1827,7 @@ func (rn *runner) addLockOne(seed uint64, cid uint64) {
 				rn.rep.Count("addlock:updated")
 				if old != nil && !bytes.Equal(oldData, old) {
 					// independent monitor: the undo bytes must be the bytes that were stored
-					rn.rep.Fail("lockup-undo-record-carries-new-delegate", fmt.Sprintf("AddNewLock returned oldLockupData %x for a record that was %x", oldData, old),
+					rn.failCapped("lockup-undo-record-carries-new-delegate", fmt.Sprintf("AddNewLock returned oldLockupData %x for a record that was %x", oldData, old),
 						caseJSON{Id: cid, Kind: "addlock", AddLock: &addLockCase{Old: hlib.Hex(old), Seed: seed}})
 				}
 			} else {
